@@ -776,9 +776,9 @@ Proof.
         (key_attr_found _ f _ _ F'), (key_attr_found _ f _ _ F).
       destruct f; cbn in Hd; try discriminate.
       * cbn. split; auto; intros _; congruence.
-      * apply orb_false_iff in Hd. destruct Hd as [_ Hc]. destruct c; [discriminate|]. cbn. auto.
-      * apply orb_false_iff in Hd. destruct Hd as [_ Hc]. destruct u; [discriminate|]. cbn. auto.
-      * apply orb_false_iff in Hd. destruct Hd as [_ Hc]. destruct e; [discriminate|]. cbn. auto.
+      * destruct c; [discriminate|]. cbn. auto.
+      * destruct u; [discriminate|]. cbn. auto.
+      * destruct e; [discriminate|]. cbn. auto.
     + intros f Hd Ha. rewrite Hd in Ha. discriminate.
     + intros f Hd. rewrite Hd. rewrite (key_has_found _ f _ _ _ F'). reflexivity.
   - (* new record *)
